@@ -169,6 +169,11 @@ pub fn explore(args: &[String]) -> i32 {
   let report_key: Option<String> = arg(args, "--report-key").map(|s| s.to_string());
   let report_run: Option<u64> = arg(args, "--report-run").map(|s| s.parse::<u64>().unwrap_or(0));
   let reset_pct = arg_u64(args, "--reset-pct", 75);
+  // --prewarm N: the worker's first runs are single-thread histories of N distinct requests in all
+  // (months, solar terms, days all over the year range) and nothing is restarted afterwards, so
+  // that every later multi-thread run meets structures that already hold N entries
+  let prewarm = arg_u64(args, "--prewarm", 0);
+  let pre_runs = ((prewarm + 4095) / 4096) as usize;
   let stress = flag(args, "--stress");
   let sample_fresh = arg_u64(args, "--sample-fresh", 48) as usize;
   let mut fresh_sample: Vec<(String, char, u64, u64)> = Vec::new();
@@ -182,6 +187,8 @@ pub fn explore(args: &[String]) -> i32 {
 
   let mut table: HashMap<String, (char, u64, usize)> = HashMap::new();
   let mut run_texts: Vec<String> = Vec::new();
+  // for every run, the index of the latest run at or before it that started from a restart
+  let mut reset_at: Vec<usize> = Vec::new();
   let mut violations: Vec<Violation> = Vec::new();
   let mut violated_keys: HashSet<String> = HashSet::new();
   let mut gs = GenStats { faults_by_class: [0; 6], twins: 0, reasks: 0, pool_ops: 0, handle_ops: 0, sandwiches: 0 };
@@ -206,6 +213,8 @@ pub fn explore(args: &[String]) -> i32 {
   let mut poisoned_acq_by_lock = [0u64; 4];
   let mut unwind_while_waiter = 0u64;
   let mut starvation = 0u64;
+  let mut parks = 0u64;
+  let mut parked_steps = 0u64;
   let mut max_op_steps = 0u64;
   let mut max_held = 0u64;
   let mut resets = 0u64;
@@ -299,8 +308,15 @@ pub fn explore(args: &[String]) -> i32 {
     let run_seed = mix(mix(seed, worker.wrapping_add(1)), r);
     let mut rng = Rng::new(run_seed);
     let sw = draw_swarm(&mut rng, &leap, conc);
-    let reset = run_texts.is_empty() || rng.below(100) < reset_pct;
-    let script = if stress { gen_stress_run(&mut rng, &leap, reset) } else { gen_run(&mut rng, &sw, &pool, &leap, reset, &mut gs) };
+    let reset_draw = rng.below(100);
+    let reset = run_texts.is_empty() || (prewarm == 0 && reset_draw < reset_pct);
+    let script = if stress {
+      gen_stress_run(&mut rng, &leap, reset)
+    } else if run_texts.len() < pre_runs {
+      crate::gen::gen_prewarm_run(&mut rng, (prewarm as usize - run_texts.len() * 4096).min(4096), reset)
+    } else {
+      gen_run(&mut rng, &sw, &pool, &leap, reset, &mut gs)
+    };
     if reset && !pending.is_empty() {
       cold_phase!();
       if stop_worker || violations.len() >= 8 {
@@ -320,6 +336,7 @@ pub fn explore(args: &[String]) -> i32 {
     let out_run = exec_run(&script, false, false, watchdog);
     let res = &out_run.result;
     let run_index = run_texts.len();
+    reset_at.push(last_reset_run);
     run_texts.push(format!("# seed={} worker={} run={} run_seed={} era={} policy={}\n{}", seed, worker, r, run_seed, ERA_NAMES[sw.era as usize], script.policy.name(), script.to_text(if stress { None } else { Some(&res.trace) })));
     runs += 1;
     if res.free_run {
@@ -349,6 +366,8 @@ pub fn explore(args: &[String]) -> i32 {
     lock_acq += res.stats.lock_acquisitions;
     unwind_while_waiter += res.stats.unwind_while_waiter;
     starvation += res.stats.starvation_stretches;
+    parks += res.stats.parks;
+    parked_steps += res.stats.parked_steps;
     max_op_steps = max_op_steps.max(res.stats.max_op_steps);
     max_held = max_held.max(res.stats.max_held_locks);
     let mut run_unwinds = 0u64;
@@ -372,7 +391,11 @@ pub fn explore(args: &[String]) -> i32 {
     let mut months_in_run: HashSet<(i64, i64)> = HashSet::new();
     for e in &evals {
       evaluations += 1;
-      pending.push(Pending { key: e.key.clone(), class: e.class, digest: e.digest, run: run_index, tid: e.tid, op: e.op, from_handle: e.from_handle });
+      // (the requests of a pre-warm run only fill the library's memory; one in 16 of them is checked
+      // against its cold answer, all months against the uncached constructor below)
+      if run_index >= pre_runs || evaluations % 16 == 0 {
+        pending.push(Pending { key: e.key.clone(), class: e.class, digest: e.digest, run: run_index, tid: e.tid, op: e.op, from_handle: e.from_handle });
+      }
       // reservoir sample of evaluations, to be compared with a really fresh process by the driver
       fresh_seen += 1;
       if fresh_sample.len() < sample_fresh {
@@ -475,11 +498,15 @@ pub fn explore(args: &[String]) -> i32 {
     if run_comparisons > 0 {
       nontrivial.insert(fnv(fnv(FNV0, &res.log_hash.to_le_bytes()), &eval_hash.to_le_bytes()));
     }
-    let (sh, clen, p1, p2, p3) = lunar_state_hash();
-    end_states.insert(sh);
-    max_cache = max_cache.max(clen);
-    if p1 || p2 || p3 {
-      refusals_poison += 1;
+    // (sorting tens of thousands of memo keys after every run is what a pre-warmed worker cannot
+    // afford: there the end state is sampled every 64th run)
+    if prewarm == 0 || runs % 64 == 0 {
+      let (sh, clen, p1, p2, p3) = lunar_state_hash();
+      end_states.insert(sh);
+      max_cache = max_cache.max(clen);
+      if p1 || p2 || p3 {
+        refusals_poison += 1;
+      }
     }
     if samples.len() < 3 && (runs == 1 || (sw.threads > 1 && samples.len() < 2) || (run_refusals > 0 && samples.len() < 3)) {
       let mut first_ops: Vec<String> = Vec::new();
@@ -518,7 +545,7 @@ pub fn explore(args: &[String]) -> i32 {
   let _ = write!(o, "\"refusals\":{},\"refusals_through_lock_unwind\":{},\"runs_ending_with_poisoned_lock\":{},", refusals_err, refusals_panic, refusals_poison);
   let _ = write!(o, "\"steps\":{},\"decisions\":{},\"switches\":{},\"blocked_events\":{},\"lock_acquisitions\":{},", steps, decisions, switches, blocked, lock_acq);
   let _ = write!(o, "\"lock_names\":[\"{}\"],", LOCK_NAMES.join("\",\""));
-  let _ = write!(o, "\"unwinds_by_lock\":{},\"poisoned_acquisitions_by_lock\":{},\"unwind_while_waiter\":{},\"starvation_stretches\":{},\"max_op_steps\":{},\"max_held_locks\":{},", jlist_u64(&unwinds_by_lock), jlist_u64(&poisoned_acq_by_lock), unwind_while_waiter, starvation, max_op_steps, max_held);
+  let _ = write!(o, "\"unwinds_by_lock\":{},\"poisoned_acquisitions_by_lock\":{},\"unwind_while_waiter\":{},\"starvation_stretches\":{},\"parks\":{},\"parked_steps\":{},\"max_op_steps\":{},\"max_held_locks\":{},", jlist_u64(&unwinds_by_lock), jlist_u64(&poisoned_acq_by_lock), unwind_while_waiter, starvation, parks, parked_steps, max_op_steps, max_held);
   let _ = write!(o, "\"resets\":{},\"warm_runs\":{},\"fault_free_runs\":{},\"faulty_runs\":{},\"evaluations_in_fault_free_runs\":{},\"evaluations_in_faulty_runs\":{},", resets, warm_runs, fault_free_runs, faulty_runs, evals_fault_free, evals_faulty);
   let _ = write!(o, "\"memo_warm_reask\":{},\"memo_cold_ask\":{},\"valid_after_refusal\":{},\"valid_after_lock_unwind\":{},\"same_month_after_refusal\":{},\"twin_pairs_in_run\":{},", memo_warm_reask, memo_cold_ask, valid_after_refusal, valid_after_lock_unwind, same_month_after_refusal, twin_pairs_in_run);
   let _ = write!(o, "\"injected_refusals_by_class\":{},\"gen_twins\":{},\"gen_reasks\":{},\"gen_pool_ops\":{},\"gen_handle_ops\":{},", jlist_u64(&gs.faults_by_class), gs.twins, gs.reasks, gs.pool_ops, gs.handle_ops);
@@ -566,7 +593,10 @@ pub fn explore(args: &[String]) -> i32 {
     match &v.history_text {
       Some(t) => hist.push_str(t),
       None => {
-        for t in &run_texts[v.history_from..=v.run] {
+        // from the restart before the first run that matters: a history that starts in the middle
+        // of a warm period does not rebuild the state the violation needs
+        let from = reset_at.get(v.history_from.min(v.run)).cloned().unwrap_or(0).min(v.history_from);
+        for t in &run_texts[from..=v.run] {
           hist.push_str(t);
         }
       }
@@ -662,6 +692,9 @@ pub fn longrun(args: &[String]) -> i32 {
   let answers_path = arg(args, "--answers");
   let watchdog = Duration::from_secs(arg_u64(args, "--watchdog", 30));
   let dump_upto: Option<u64> = if arg(args, "--dump-upto").is_none() { None } else { Some(arg_u64(args, "--dump-upto", 0)) };
+  // --threads T > 1: every block of 4096 queries is dealt round robin to T threads of one simulated
+  // run under the random-walk scheduler (the long history and concurrency at the same time)
+  let nthreads = (arg_u64(args, "--threads", 1) as usize).max(1).min(16);
   let t0 = Instant::now();
   let hash_seed = mix(mix(seed, 0x6c6f6e67), index) | 1;
   tyme4rs::tyme::verif::set_hash_seed(hash_seed);
@@ -690,10 +723,32 @@ pub fn longrun(args: &[String]) -> i32 {
     1 => order.reverse(),
     _ => Rng::new(mix(mix(seed, 0x6f72646572), index)).shuffle(&mut order),
   }
+  // the run made of block number b (queries order[b*4096 ..]); for T threads query k of the block
+  // is operation k / T of thread k % T
+  let block_script = |b: usize| -> crate::script::RunScript {
+    let lo = b * 4096;
+    let hi = (lo + 4096).min(n);
+    let mut threads: Vec<Vec<crate::script::Op>> = vec![Vec::new(); nthreads];
+    for (k, i) in order[lo..hi].iter().enumerate() {
+      threads[k % nthreads].push(crate::script::Op::Q { q: queries[*i as usize].clone(), stop: false });
+    }
+    threads.retain(|t| !t.is_empty());
+    let policy = if nthreads > 1 { crate::sched::Policy::RandomWalk } else { crate::sched::Policy::Seq };
+    crate::script::RunScript { threads, policy, sched_seed: mix(mix(seed, 0x626c6f636b), b as u64), hash_seed, reset: b == 0, fault_free: true, alloc_period: 0 }
+  };
   if let Some(p) = dump_upto {
     let upto = (p as usize + 1).min(n);
-    let qs: Vec<Query> = order[..upto].iter().map(|i| queries[*i as usize].clone()).collect();
-    write_out(out, &chunked_script(&qs, hash_seed));
+    if nthreads == 1 {
+      let qs: Vec<Query> = order[..upto].iter().map(|i| queries[*i as usize].clone()).collect();
+      write_out(out, &chunked_script(&qs, hash_seed));
+    } else {
+      // whole blocks (the order inside a block is the scheduler's)
+      let mut s = String::new();
+      for b in 0..=((upto - 1) / 4096) {
+        s.push_str(&block_script(b).to_text(None));
+      }
+      write_out(out, &s);
+    }
     return 0;
   }
   let mut answers: Vec<(char, u64, u32)> = vec![('-', 0, 0); n];
@@ -704,11 +759,35 @@ pub fn longrun(args: &[String]) -> i32 {
   while pos < n {
     let end = (pos + 4096).min(n);
     let qs: Vec<Query> = order[pos..end].iter().map(|i| queries[*i as usize].clone()).collect();
-    match batch(&qs, hash_seed, pos == 0, watchdog) {
+    let res = if nthreads == 1 {
+      batch(&qs, hash_seed, pos == 0, watchdog)
+    } else {
+      let script = block_script(pos / 4096);
+      let out = exec_run_opt(&script, false, false, watchdog, false);
+      match &out.result.abort {
+        Some(a) => Err((a.clone(), out.evals.len())),
+        None => {
+          let mut ans: Vec<(char, u64)> = vec![('-', 0); qs.len()];
+          for e in &out.evals {
+            let k = e.op as usize * nthreads + e.tid as usize;
+            if k < ans.len() {
+              ans[k] = (e.class, e.digest);
+            }
+          }
+          Ok(ans)
+        }
+      }
+    };
+    match res {
       Err((why, done)) => {
-        let upto = pos + (done + 1).min(qs.len());
-        let all: Vec<Query> = order[..upto].iter().map(|i| queries[*i as usize].clone()).collect();
-        violations.push(format!("{{\"obligation\":\"P\",\"key\":\"\",\"position\":{},\"detail\":\"{}\",\"history\":\"{}\"}}", pos + done, esc(&why), esc(&chunked_script(&all, hash_seed))));
+        let history = if nthreads == 1 {
+          let upto = pos + (done + 1).min(qs.len());
+          let all: Vec<Query> = order[..upto].iter().map(|i| queries[*i as usize].clone()).collect();
+          chunked_script(&all, hash_seed)
+        } else {
+          (0..=(pos / 4096)).map(|b| block_script(b).to_text(None)).collect::<Vec<String>>().join("")
+        };
+        violations.push(format!("{{\"obligation\":\"P\",\"key\":\"\",\"position\":{},\"detail\":\"{}\",\"history\":\"{}\"}}", pos + done, esc(&why), esc(&history)));
         break;
       }
       Ok(ans) => {
@@ -733,7 +812,7 @@ pub fn longrun(args: &[String]) -> i32 {
   let fams: Vec<String> = (0..10).map(|f| format!("\"{}\":{}", FAMILIES[f], per_family[f])).collect();
   let (clen, _, _, _, _) = if violations.is_empty() { let x = lunar_state_hash(); (x.1, x.2, x.3, x.4, false) } else { (0, false, false, false, false) };
   let mut o = String::new();
-  let _ = write!(o, "{{\"mode\":\"longrun\",\"seed\":{},\"index\":{},\"n\":{},\"evaluations\":{},\"refused\":{},\"month_memo_entries_after\":{},\"queries_per_family\":{{{}}},\"wall_s\":{:.3},\"violations\":[{}]}}\n", seed, index, n, evaluations, refused, clen, fams.join(","), t0.elapsed().as_secs_f64(), violations.join(","));
+  let _ = write!(o, "{{\"mode\":\"longrun\",\"seed\":{},\"index\":{},\"threads\":{},\"n\":{},\"evaluations\":{},\"refused\":{},\"month_memo_entries_after\":{},\"queries_per_family\":{{{}}},\"wall_s\":{:.3},\"violations\":[{}]}}\n", seed, index, nthreads, n, evaluations, refused, clen, fams.join(","), t0.elapsed().as_secs_f64(), violations.join(","));
   write_out(out, &o);
   0
 }
